@@ -18,7 +18,7 @@ Qed.
 Theorem new_sc_spec s : wf_st s ->
   exists s', new_sc s = ([], s', Ok (List.length (store s))) /\ inp s' = inp s /\ lst s' = lst s /\
              view s' = view s /\ wf_st s' /\ List.length (store s') = S (List.length (store s)) /\
-             get_sc s' (List.length (store s)) = sc_new.
+             get_sc s' (List.length (store s)) = sc_new /\ frame s s'.
 Proof.
   intros [ND AL]. eexists. unfold new_sc. split; [reflexivity|]. cbn [inp lst store].
   split; [reflexivity|]. split; [reflexivity|]. split.
@@ -26,8 +26,10 @@ Proof.
     rewrite Forall_forall in AL. rewrite app_nth1 by (apply AL, Hi). reflexivity.
   - split; [split; [exact ND|]|].
     + cbn [lst store]. rewrite app_length. cbn. eapply Forall_impl; [|exact AL]. cbn. intros. lia.
-    + split; [rewrite app_length; cbn; lia|].
-      unfold get_sc. cbn [store]. rewrite app_nth2 by lia. rewrite Nat.sub_diag. reflexivity.
+    + split; [rewrite app_length; cbn; lia|]. split.
+      * unfold get_sc. cbn [store]. rewrite app_nth2 by lia. rewrite Nat.sub_diag. reflexivity.
+      * split; [cbn [store]; rewrite app_length; lia|]. intros i Hi Hn. split; [|exact Hn].
+        unfold get_sc. cbn [store]. rewrite app_nth1 by exact Hi. reflexivity.
 Qed.
 
 Lemma anticipate_none s ids self size :
@@ -50,7 +52,7 @@ Theorem set_constraint_spec abort cid pa n s : wf_st s -> 0 <= n -> (cid < List.
              view s' = map (set_entry cid n) (view s) /\ wf_st s' /\
              List.length (store s') = List.length (store s) /\
              get_sc s' cid = mkSc (Some pa) (Some n) (sc_already (get_sc s cid)) (sc_obs (get_sc s cid)) /\
-             (forall i, i <> cid -> get_sc s' i = get_sc s i).
+             (forall i, i <> cid -> get_sc s' i = get_sc s i) /\ (forall k, (k <= cid)%nat -> frame_from k s s').
 Proof.
   intros [ND AL] Hn Hc F. unfold set_constraint. replace (n <? 0) with false by lia.
   unfold bind at 1. cbn [get]. unfold bind at 1. cbn [set_sc app]. unfold bind at 1. cbn [get app].
@@ -78,7 +80,9 @@ Proof.
     + apply Nat.eqb_eq in E. subst i. rewrite G1. reflexivity.
     + apply Nat.eqb_neq in E. rewrite G2 by exact E. reflexivity.
   - split; [split; [exact ND|cbn [s1 lst store]; rewrite upd_length; exact AL]|].
-    split; [cbn [s1 store]; apply upd_length|]. split; [exact G1|exact G2].
+    split; [cbn [s1 store]; apply upd_length|]. split; [exact G1|]. split; [exact G2|].
+    intros k Hk. apply (frame_from_only cid); [exact Hk|cbn [s1 store]; rewrite upd_length; lia|exact G2|].
+    intros i Hi. left. exact Hi.
 Qed.
 
 Lemma map_set_entry_fresh cid n v : ~ In cid (ids_of v) -> map (set_entry cid n) v = v.
@@ -100,16 +104,18 @@ Qed.
 Theorem append_lst_spec cid s : wf_st s -> ~ In cid (lst s) -> (cid < List.length (store s))%nat ->
   sc_obs (get_sc s cid) = false ->
   exists s', append_lst cid s = ([], s', Ok tt) /\ inp s' = inp s /\ store s' = store s /\
-             view s' = view s ++ [entry_of s cid] /\ wf_st s'.
+             view s' = view s ++ [entry_of s cid] /\ wf_st s' /\ (forall k, (k <= cid)%nat -> frame_from k s s').
 Proof.
   intros [ND AL] Hn Hc Ob. eexists. unfold append_lst. split; [reflexivity|]. cbn [inp store lst].
   split; [reflexivity|]. split; [reflexivity|]. split.
   - unfold view. cbn [lst]. rewrite filter_app, map_app. cbn [filter].
     assert (L : live (mkSt (inp s) (store s) (lst s ++ [cid])) cid = true) by (unfold live, get_sc; cbn [store]; fold (get_sc s cid); rewrite Ob; reflexivity).
     rewrite L. reflexivity.
-  - split; cbn [lst store].
+  - split; [split; cbn [lst store]|].
     + apply NoDup_snoc; assumption.
     + apply Forall_app. split; [exact AL|constructor; [exact Hc|constructor]].
+    + intros k Hk. apply (frame_from_only cid); [exact Hk|cbn [store]; lia|intros i _; reflexivity|].
+      cbn [lst]. intros i Hi. apply in_app_or in Hi as [Hi|[Hi|[]]]; [left; exact Hi|right; symmetry; exact Hi].
 Qed.
 
 Lemma filter_map_comm {A B} (f : A -> B) (p : B -> bool) (g : A -> bool) l :
@@ -121,7 +127,9 @@ Proof. induction l as [|a l IH]; [reflexivity|]. cbn. destruct (f a); cbn; [dest
 (** O5: closing the innermost region when it is exactly filled *)
 Theorem assert_done_spec abort cid mx V s : wf_st s -> view s = V ++ [(cid, Some mx, mx)] -> ~ In cid (ids_of V) ->
   exists s', assert_done abort cid s = ([], s', Ok tt) /\ inp s' = inp s /\ lst s' = lst s /\
-             view s' = V /\ wf_st s' /\ List.length (store s') = List.length (store s).
+             view s' = V /\ wf_st s' /\ List.length (store s') = List.length (store s) /\
+             (forall k, (k <= cid)%nat -> frame_from k s s') /\
+             sc_obs (get_sc s' cid) = true /\ sc_max (get_sc s' cid) = Some mx /\ frame s s'.
 Proof.
   intros [ND AL] Hv Hn.
   assert (Hin : In (cid, Some mx, mx) (view s)) by (rewrite Hv; apply in_or_app; right; left; reflexivity).
@@ -153,7 +161,13 @@ Proof.
     clear - Hn. induction V as [|[[i m] a] V IH]; [reflexivity|]. cbn [filter fst].
     destruct (Nat.eqb i cid) eqn:E; [apply Nat.eqb_eq in E; subst; exfalso; apply Hn; left; reflexivity|].
     cbn [negb]. f_equal. apply IH. intros Hx. apply Hn. right. exact Hx.
-  - split; [split; [exact ND|cbn [s1 lst store]; rewrite upd_length; exact AL]|]. cbn [s1 store]. apply upd_length.
+  - split; [split; [exact ND|cbn [s1 lst store]; rewrite upd_length; exact AL]|].
+    split; [cbn [s1 store]; apply upd_length|]. split; [|split; [exact G1|]].
+    + intros k Hk. apply (frame_from_only cid); [exact Hk|cbn [s1 store]; rewrite upd_length; lia|exact G2|].
+      intros i Hi. left. exact Hi.
+    + split; [unfold get_sc; cbn [s1 store]; rewrite get_sc_upd_same by exact Hc; reflexivity|].
+      split; [cbn [s1 store]; rewrite upd_length; lia|]. intros i _ Hi. split; [|exact Hi].
+      apply G2. intros ->. contradiction.
 Qed.
 
 (** O6: a primitive whose bytes are there, fit every live region and hold a valid value *)
@@ -175,17 +189,19 @@ Theorem dec_prim_spec abort p pa bs rest s : wf_st s -> inp s = bs ++ rest -> Li
                (map Rd bs ++ Ev (mkEvent pa (TyN (pname p)) (Some (from_bytes (psigned p) bs))) ::
                   vwarn pa p (from_bytes (psigned p) bs), s',
                 Ok (Some (VInt_ (pname p) (from_bytes (psigned p) bs)))) /\
-             inp s' = rest /\ view s' = bump (pwidth p) (view s) /\ wf_st s'.
+             inp s' = rest /\ view s' = bump (pwidth p) (view s) /\ wf_st s' /\ frame s s'.
 Proof.
   intros W I L Hw V F. unfold dec_prim. unfold bind at 1.
-  destruct (bytes_parsed_fits pa (pwidth p) s W F) as (s1 & E1 & I1 & V1 & W1 & _ & _). rewrite E1. cbn [app].
+  destruct (bytes_parsed_fits pa (pwidth p) s W F) as (s1 & E1 & I1 & V1 & W1 & Len1 & G1 & Inc1). rewrite E1. cbn [app].
+  assert (Fr : frame s (mkSt rest (store s1) (lst s1))).
+  { split; [cbn [store]; lia|]. intros i _ Hi. cbn [lst]. split; [apply (G1 i Hi)|intros Hx; apply Hi, Inc1, Hx]. }
   unfold bind at 1. rewrite <- L.
   replace s1 with (mkSt (bs ++ rest) (store s1) (lst s1)) by (destruct s1; cbn in *; congruence).
   rewrite readn_exact'. unfold vwarn.
   destruct (valid p (from_bytes (psigned p) bs)) eqn:Vd.
   - unfold bind, emit, ret. cbn [app].
-    eexists. split; [reflexivity|]. cbn [inp]. split; [reflexivity|]. split; [rewrite <- V1; reflexivity|exact W1].
+    eexists. split; [reflexivity|]. cbn [inp]. split; [reflexivity|]. split; [rewrite <- V1; reflexivity|split; [exact W1|exact Fr]].
   - destruct abort; [specialize (V eq_refl); discriminate|].
     unfold bind, emit, ret. cbn [app].
-    eexists. split; [reflexivity|]. cbn [inp]. split; [reflexivity|]. split; [rewrite <- V1; reflexivity|exact W1].
+    eexists. split; [reflexivity|]. cbn [inp]. split; [reflexivity|]. split; [rewrite <- V1; reflexivity|split; [exact W1|exact Fr]].
 Qed.
